@@ -238,6 +238,36 @@ SRCTIE = {
     "Grenad.SrcTie.WriterLemmas": ("SrcWriter", ["DEFAULT_INDEX_KEY_INTERVAL", "BlockWriterBuilder", "BlockWriterBuilder.new",
                                                  "BlockWriterBuilder.index_key_interval", "BlockWriterBuilder.build", "BlockWriter.builder",
                                                  "BlockWriter.last_key", "Writer", "WriterBuilder.build", "Writer.insert", "Writer.into_inner"]),
+    "Grenad.SrcTie.IndexCursorLoad": ("SrcReaderCursor", ["Block", "Block.read_from", "CompressionType", "Block.new", "BlockCursor.new", "Block.into_cursor", "IndexBlockCursor", "IndexBlockCursor.new",
+                                                   "IndexBlockCursor.reset", "IndexBlockCursor.initial_index_blocks", "IndexBlockCursor.iter_index_blocks",
+                                                   "IndexBlockCursor.recursive_index_block.recursive", "IndexBlockCursor.recursive_index_block",
+                                                   "IndexBlockCursor.move_on_first", "IndexBlockCursor.move_on_last", "IndexBlockCursor.move_on_next",
+                                                   "IndexBlockCursor.move_on_prev", "IndexBlockCursor.move_on_key_greater_than_or_equal_to"]),
+    "Grenad.SrcTie.IndexCursorInit": ("SrcReaderCursor", ["Block", "Block.read_from", "CompressionType", "Block.new", "BlockCursor.new", "Block.into_cursor", "IndexBlockCursor", "IndexBlockCursor.new",
+                                                   "IndexBlockCursor.reset", "IndexBlockCursor.initial_index_blocks", "IndexBlockCursor.iter_index_blocks",
+                                                   "IndexBlockCursor.recursive_index_block.recursive", "IndexBlockCursor.recursive_index_block",
+                                                   "IndexBlockCursor.move_on_first", "IndexBlockCursor.move_on_last", "IndexBlockCursor.move_on_next",
+                                                   "IndexBlockCursor.move_on_prev", "IndexBlockCursor.move_on_key_greater_than_or_equal_to"]),
+    "Grenad.SrcTie.IndexCursorIter": ("SrcReaderCursor", ["Block", "Block.read_from", "CompressionType", "Block.new", "BlockCursor.new", "Block.into_cursor", "IndexBlockCursor", "IndexBlockCursor.new",
+                                                   "IndexBlockCursor.reset", "IndexBlockCursor.initial_index_blocks", "IndexBlockCursor.iter_index_blocks",
+                                                   "IndexBlockCursor.recursive_index_block.recursive", "IndexBlockCursor.recursive_index_block",
+                                                   "IndexBlockCursor.move_on_first", "IndexBlockCursor.move_on_last", "IndexBlockCursor.move_on_next",
+                                                   "IndexBlockCursor.move_on_prev", "IndexBlockCursor.move_on_key_greater_than_or_equal_to"]),
+    "Grenad.SrcTie.IndexCursorRec": ("SrcReaderCursor", ["Block", "Block.read_from", "CompressionType", "Block.new", "BlockCursor.new", "Block.into_cursor", "IndexBlockCursor", "IndexBlockCursor.new",
+                                                   "IndexBlockCursor.reset", "IndexBlockCursor.initial_index_blocks", "IndexBlockCursor.iter_index_blocks",
+                                                   "IndexBlockCursor.recursive_index_block.recursive", "IndexBlockCursor.recursive_index_block",
+                                                   "IndexBlockCursor.move_on_first", "IndexBlockCursor.move_on_last", "IndexBlockCursor.move_on_next",
+                                                   "IndexBlockCursor.move_on_prev", "IndexBlockCursor.move_on_key_greater_than_or_equal_to"]),
+    "Grenad.SrcTie.IndexCursor": ("SrcReaderCursor", ["Block", "Block.read_from", "CompressionType", "Block.new", "BlockCursor.new", "Block.into_cursor", "IndexBlockCursor", "IndexBlockCursor.new",
+                                                   "IndexBlockCursor.reset", "IndexBlockCursor.initial_index_blocks", "IndexBlockCursor.iter_index_blocks",
+                                                   "IndexBlockCursor.recursive_index_block.recursive", "IndexBlockCursor.recursive_index_block",
+                                                   "IndexBlockCursor.move_on_first", "IndexBlockCursor.move_on_last", "IndexBlockCursor.move_on_next",
+                                                   "IndexBlockCursor.move_on_prev", "IndexBlockCursor.move_on_key_greater_than_or_equal_to"]),
+    "Grenad.SrcTie.IndexCursorSmoke": ("SrcReaderCursor", ["Block", "Block.read_from", "CompressionType", "Block.new", "BlockCursor.new", "Block.into_cursor", "IndexBlockCursor", "IndexBlockCursor.new",
+                                                   "IndexBlockCursor.reset", "IndexBlockCursor.initial_index_blocks", "IndexBlockCursor.iter_index_blocks",
+                                                   "IndexBlockCursor.recursive_index_block.recursive", "IndexBlockCursor.recursive_index_block",
+                                                   "IndexBlockCursor.move_on_first", "IndexBlockCursor.move_on_last", "IndexBlockCursor.move_on_next",
+                                                   "IndexBlockCursor.move_on_prev", "IndexBlockCursor.move_on_key_greater_than_or_equal_to"]),
     "Grenad.SrcTie.Sorter": ("SrcSorter", ["EntryBound", "EntryBoundAlignedBuffer", "EntryBoundAlignedBuffer.deref", "Entries", "Entries.clear",
                                            "Entries.remaining", "Entries.entry_size", "Entries.fits", "Entries.memory_usage",
                                            "Entries.estimated_entries_memory_usage", "Sorter", "Sorter.threshold_exceeded"]),
@@ -246,7 +276,9 @@ for _p, _mods in {"C14": ["Varint", "Block", "C14Src"], "C13": ["Meta", "C13Src"
                   "C09": ["Meta", "BlockWriter", "Varint", "C13Src", "CountWrite", "WriterBlock", "WriterInsert", "WriterFinish", "WriterRun"], "C04": ["IterRange", "IterNext", "C04C05Src"],
                   "C05": ["IterPrefix", "C05Src", "IterNext", "C04C05Src"], "C18": ["BlockWriter", "C18Src", "WriterBlock", "WriterInsert", "WriterRun"], "C15": ["BlockWriter", "WriterBuilder", "WriterCut", "WriterInsert", "WriterBuild"],
                   "C01": ["BlockWriter", "Varint", "Meta", "Block", "BlockCursor", "TBlockSrc", "BuiltSrc", "NoPanic", "EndToEnd", "BlockLoad", "WriterBlock", "WriterLemmas", "WriterCut", "WriterInsert", "WriterFinish", "WriterRun", "WriterBounds", "WriterBuild"],
-                  "C02": ["BlockCursor", "Smoke", "TBlockSrc", "NoPanic"], "C06": ["Merger"], "C11": ["CountWrite"], "C08": ["Sorter"], "C07": ["Sorter"]}.items():
+                  "C02": ["BlockCursor", "Smoke", "TBlockSrc", "NoPanic", "IndexCursorLoad", "IndexCursorIter", "IndexCursor"],
+                  "C03": ["IndexCursorLoad", "IndexCursorInit", "IndexCursorIter", "IndexCursorRec", "IndexCursor", "IndexCursorSmoke"],
+                  "C16": ["IndexCursorLoad", "IndexCursorInit", "IndexCursorIter", "IndexCursorRec", "IndexCursor"], "C06": ["Merger"], "C11": ["CountWrite"], "C08": ["Sorter"], "C07": ["Sorter"]}.items():
     PROPS[_p]["srctie"] = ["Grenad.SrcTie." + m for m in _mods]
 
 
